@@ -343,7 +343,7 @@ impl Token {
     }
 
     pub fn make_word(word: &str, quote_style: Option<char>) -> Self {
-        let word_uppercase = word.to_uppercase();
+        let word_uppercase = word.to_ascii_uppercase();
         Token::Word(Word {
             value: word.to_string(),
             quote_style,
